@@ -809,7 +809,7 @@ func checkMain(t *testing.T) {
 			continue
 		}
 		spec.Decisions = cloneDec(first.Decisions)
-		mspec, mres, tries := minimise(t, spec, prop, class, 40*time.Second)
+		mspec, mres, tries := minimise(t, spec, prop, class, minimiseBudget)
 		if mres == nil {
 			mspec, mres = spec, first
 		}
@@ -953,6 +953,14 @@ func determinismMain(t *testing.T) {
 
 // hangAfter is the real time without any progress after which a worker is declared hung. A run
 // takes milliseconds (the 600-Send wrap runs a second or two).
+// minimiseBudget bounds the delta debugging of one violation class.
+var minimiseBudget = func() time.Duration {
+	if d, err := time.ParseDuration(os.Getenv("VERIF_MINIMISE")); err == nil {
+		return d
+	}
+	return 20 * time.Second
+}()
+
 const hangAfter = 90 * time.Second
 
 type crashInfo struct {
